@@ -36,7 +36,7 @@
     for (                                                     \
       int i = 0;                                              \
       symbol[i] != '\0'                                       \
-      && off < TREE_SITTER_SERIALIZATION_BUFFER_SIZE;         \
+      && off < TREE_SITTER_SERIALIZATION_BUFFER_SIZE - 2;     \
       i++                                                     \
     ) {                                                       \
       switch (symbol[i]) {                                    \
